@@ -11,7 +11,7 @@ from common import Failure
 ID = 'C07'
 DRIVER = 'drv_insp'
 DRIVER_ROOT = 'Drivers.Insp'
-PROOF_MODULES = ['OsloProofs.Props.C07', 'OsloProofs.Props.C07Vmdk']
+PROOF_MODULES = ['OsloProofs.Props.C07', 'OsloProofs.Props.C07Vmdk', 'OsloProofs.Props.C07Vhdx']
 LEVEL = 'proof'
 RULE = ('well-formed images of the ten layouts whose declared size runs over the field\'s full range (0, 1, 2^k+-1, 2^32+-1, '
         '2^63, 2^64-1, random; ISO blocks x block size; LUKS payload offsets; stream lengths for raw/GPT) x admissible '
